@@ -248,6 +248,7 @@ def run_unit(unit_path, prop, tier, seed, tag=None):
         u['undecided'].append({'reason': 'unit-file-error', 'detail': str(e)})
         return u
     u['extraction'] = {'blocks': rep['blocks'], 'changed': rep['changed'], 'conflicts': rep['conflicts'], 'lost': rep['lost'],
+                       'annotations_dropped_with_deleted_code': rep.get('dropped_with_code', []),
                        'generated': os.path.relpath(out_path, ROOT),
                        'sha256': hashlib.sha256('\n'.join(rep['gen_lines']).encode()).hexdigest()[:16]}
     gen_lines = rep['gen_lines']
@@ -298,6 +299,7 @@ def run_unit(unit_path, prop, tier, seed, tag=None):
                                'detail': '; '.join(d['message'][:200] for d in front_end[:4]),
                                'blocks_changed': rep['changed'], 'merge_conflicts': rep['conflicts']})
         return u
+    conflict_blocks = set(c.get('block') for c in rep['conflicts'])
     for d in pv['diags']:
         if is_rlimit(d):
             u['undecided'].append({'reason': 'rlimit', 'detail': d['message'][:200]})
@@ -333,8 +335,20 @@ def run_unit(unit_path, prop, tier, seed, tag=None):
                 props.update(block_props.get(b) or [])
         fail = {'message': d['message'], 'blocks': blocks, 'labels': sorted(set(labels)), 'where': texts_, 'props': sorted(props),
                 'in_real_function': bool(blocks)}
+        # annotations of this function could not all be carried over to the changed text (merge conflict): a proof that
+        # fails without its hints is undecided, not a violation (the witness search may still decide it)
+        if set(blocks) & conflict_blocks:
+            u['undecided'].append({'reason': 'merge-conflict', 'detail': 'obligation %s of %s fails, but annotations were lost in the merge: %s' % (
+                ', '.join(fail['labels']) or d['message'][:80], ', '.join(blocks), '; '.join(c['text'][:60] for c in rep['conflicts'][:3])),
+                'props': fail['props'], 'blocks_changed': rep['changed'], 'merge_conflicts': rep['conflicts']})
+            continue
         u['failures'].append(fail)
     u['fn_obligations'] = u['verified'] + u['errors']
+    # a contract clause that was lost in the merge: what is left of the function may verify, but not against its contract
+    for c in rep['conflicts']:
+        if c.get('contract') or re.search(r'\b(requires|ensures|invariant|decreases)\b', c.get('text', '') + ' ' + (c.get('new') or '')):
+            u['undecided'].append({'reason': 'lost-contract', 'detail': 'a contract clause of %s could not be carried over: %s' % (c.get('block'), (c.get('text') or c.get('new') or '')[:120]),
+                                   'blocks_changed': rep['changed'], 'merge_conflicts': rep['conflicts']})
     # vacuity probes
     try:
         ptext, plines, pnames = make_probe(rep)
